@@ -1,41 +1,66 @@
 //! E1: explicit-state search with stateright over closures that drive the real crate.
+//! A node carries a hashed canonical `key` (what the property can observe), an unhashed `aux`
+//! (the operation history needed to rebuild the real object) and a `bad` flag set by the oracle
+//! when the *transition* that produced it was judged — so a wrong step cannot hide behind a
+//! state that was first reached correctly.
 use stateright::{Checker, HasDiscoveries, Model, Property};
 use std::fmt::Debug;
-use std::hash::Hash;
+use std::hash::{Hash, Hasher};
 use std::sync::atomic::{AtomicU64, Ordering};
 use std::sync::Arc;
 
-pub struct FnModel<S, A> {
-    pub init: Vec<S>,
-    pub actions: Arc<dyn Fn(&S, &mut Vec<A>) + Send + Sync>,
-    pub next: Arc<dyn Fn(&S, &A) -> Option<S> + Send + Sync>,
-    /// true = state satisfies the oracle (or is a listed known finding)
-    pub judge: Arc<dyn Fn(&S) -> bool + Send + Sync>,
-    pub boundary: Arc<dyn Fn(&S) -> bool + Send + Sync>,
+#[derive(Clone, Debug)]
+pub struct Node<K, A> {
+    pub key: K,
+    pub aux: A,
+    pub bad: bool,
+}
+impl<K: Hash, A> Hash for Node<K, A> {
+    fn hash<H: Hasher>(&self, h: &mut H) {
+        self.key.hash(h);
+        self.bad.hash(h);
+    }
+}
+impl<K: PartialEq, A> PartialEq for Node<K, A> {
+    fn eq(&self, o: &Self) -> bool {
+        self.key == o.key && self.bad == o.bad
+    }
+}
+impl<K: Eq, A> Eq for Node<K, A> {}
+
+pub struct FnModel<K, A, Act> {
+    pub init: Vec<Node<K, A>>,
+    pub actions: Arc<dyn Fn(&Node<K, A>, &mut Vec<Act>) + Send + Sync>,
+    /// execute one action on the real code; returns the successor (with `bad` set by the oracle) or None if not enabled
+    pub step: Arc<dyn Fn(&Node<K, A>, &Act) -> Option<Node<K, A>> + Send + Sync>,
+    pub boundary: Arc<dyn Fn(&Node<K, A>) -> bool + Send + Sync>,
     pub transitions: Arc<AtomicU64>,
 }
 
-impl<S, A> Model for FnModel<S, A>
+impl<K, A, Act> Model for FnModel<K, A, Act>
 where
-    S: Clone + Hash + Eq + Debug + Send + Sync + 'static,
-    A: Clone + Debug + PartialEq + Send + Sync + 'static,
+    K: Clone + Hash + Eq + Debug + Send + Sync + 'static,
+    A: Clone + Debug + Send + Sync + 'static,
+    Act: Clone + Debug + PartialEq + Send + Sync + 'static,
 {
-    type State = S;
-    type Action = A;
-    fn init_states(&self) -> Vec<S> {
+    type State = Node<K, A>;
+    type Action = Act;
+    fn init_states(&self) -> Vec<Self::State> {
         self.init.clone()
     }
-    fn actions(&self, s: &S, out: &mut Vec<A>) {
-        (self.actions)(s, out)
+    fn actions(&self, s: &Self::State, out: &mut Vec<Act>) {
+        if !s.bad {
+            (self.actions)(s, out)
+        }
     }
-    fn next_state(&self, s: &S, a: A) -> Option<S> {
+    fn next_state(&self, s: &Self::State, a: Act) -> Option<Self::State> {
         self.transitions.fetch_add(1, Ordering::Relaxed);
-        (self.next)(s, &a)
+        (self.step)(s, &a)
     }
     fn properties(&self) -> Vec<Property<Self>> {
-        vec![Property::always("oracle", |m: &Self, s: &S| (m.judge)(s))]
+        vec![Property::always("oracle", |_m: &Self, s: &Self::State| !s.bad)]
     }
-    fn within_boundary(&self, s: &S) -> bool {
+    fn within_boundary(&self, s: &Self::State) -> bool {
         (self.boundary)(s)
     }
 }
@@ -49,18 +74,17 @@ pub struct Outcome {
     pub capped: bool,
 }
 
-/// Run to closure (or until the first state the judge rejects). `cap` bounds unique states.
-pub fn explore<S, A>(m: FnModel<S, A>, threads: usize, dfs: bool, cap: usize) -> Outcome
+/// Run to closure. `cap` bounds the number of *generated* states (stateright's target_state_count). `stop_on_fail` = stop at the first failing transition (used where a drifting hidden
+/// accumulator could blow the space up); otherwise every transition of the closure is judged.
+pub fn explore<K, A, Act>(m: FnModel<K, A, Act>, threads: usize, dfs: bool, cap: usize, stop_on_fail: bool) -> Outcome
 where
-    S: Clone + Hash + Eq + Debug + Send + Sync + 'static,
-    A: Clone + Debug + PartialEq + Send + Sync + 'static,
+    K: Clone + Hash + Eq + Debug + Send + Sync + 'static,
+    A: Clone + Debug + Send + Sync + 'static,
+    Act: Clone + Debug + PartialEq + Send + Sync + 'static,
 {
     let tr = m.transitions.clone();
-    let b = m
-        .checker()
-        .threads(threads)
-        .finish_when(HasDiscoveries::AnyFailures)
-        .target_state_count(cap);
+    let mut b = m.checker().threads(threads).target_state_count(cap);
+    b = if stop_on_fail { b.finish_when(HasDiscoveries::AnyFailures) } else { b.finish_when(HasDiscoveries::AllOf(["never"].into_iter().collect())) };
     let (generated, unique, max_depth, failed) = if dfs {
         let c = b.spawn_dfs().join();
         (c.state_count(), c.unique_state_count(), c.max_depth(), c.discovery("oracle").is_some())
@@ -68,12 +92,5 @@ where
         let c = b.spawn_bfs().join();
         (c.state_count(), c.unique_state_count(), c.max_depth(), c.discovery("oracle").is_some())
     };
-    Outcome {
-        generated: generated as u64,
-        unique: unique as u64,
-        max_depth: max_depth as u64,
-        transitions: tr.load(Ordering::Relaxed),
-        failed,
-        capped: unique >= cap,
-    }
+    Outcome { generated: generated as u64, unique: unique as u64, max_depth: max_depth as u64, transitions: tr.load(Ordering::Relaxed), failed, capped: generated >= cap }
 }
